@@ -219,8 +219,10 @@ pub fn open_funds_cw20_detail(w: &World, v: u32, t: u32, side: &Side, margin: u1
     let out = out.map(|x| x.u128()).unwrap_or(0);
     let rest = if on > out { on - out } else { out - on };
     if lev == 0 || rest / lev == 0 { return (fees, None); }
-    // margin_to_vault = -old_margin - upnl + swap_margin(rest)
-    let released: i128 = p.margin.u128() as i128 + if upnl.negative { -(upnl.value.u128() as i128) } else { upnl.value.u128() as i128 };
+    // margin_to_vault = -(old_margin - funding owed) - upnl + swap_margin(rest)
+    let mwf: Option<me::Position> = w.q(&w.engine, &me::QueryMsg::PositionWithFundingPayment { vamm: w.addr(v).to_string(), trader: w.addr(t).to_string() });
+    let margin_settled = mwf.map(|x| x.margin.u128()).unwrap_or(p.margin.u128());
+    let released: i128 = margin_settled as i128 + if upnl.negative { -(upnl.value.u128() as i128) } else { upnl.value.u128() as i128 };
     let need = sm(rest) as i128 - released;
     (fees + if need > 0 { need as u128 } else { 0 }, Some((need, released, fees)))
 }
